@@ -106,6 +106,12 @@ where
     pub fn is_empty(&self) -> bool {
         self.events.is_empty()
     }
+
+    /// Whether the next event to be produced is a clear. (Pushing a clear discards everything that was
+    /// queued before it, so a pending clear is always at the head of the queue.)
+    pub fn clear_pending(&self) -> bool {
+        matches!(self.events.front(), Some(MapOperation::Clear))
+    }
 }
 
 impl<K, V> MapEventQueue<K, V> for EventQueue<K, ()>
